@@ -285,25 +285,46 @@ def stage_loop(ctx: Ctx):
         back = rng.random() < 0.3
         root = fst.FST(src, 'exec')
         pat = MList(elts=[M(first=...), M(second=...), MQSTAR(rest=...)])
+        # a callback that declines some rounds (by global call number): a declined round ends the rounds at that location only
+        skip_at = set(rng.sample(range(1, 12), rng.randrange(0, 4))) if rng.random() < 0.5 and not back else set()
+        calls = [0]
+
+        def cb(m, calls=calls, skip_at=skip_at):
+            calls[0] += 1
+            return calls[0] in skip_at
         try:
-            _, n_unique, n_total = root.subn(pat, '[__FST_first + __FST_second, __FST_rest]', loop=loop, back=back)
+            _, n_unique, n_total = root.subn(pat, '[__FST_first + __FST_second, __FST_rest]', loop=loop, back=back, **({'callback': cb} if skip_at else {}))
         except Exception as e:
             ctx.violation(f'sub-raise|loop|{type(e).__name__}', 'sub(loop=N) raised', {'src': src, 'loop': loop, 'error': repr(e)[:300]})
             continue
         ctx.tick(('loop', src, loop, back), 'sub:loop')
         lim = 10 ** 9 if loop is True or loop == 0 else loop
         exp_lists, total, unique = [], 0, 0
+        ncall = 0
         for l in lists:
             steps = min(lim, max(0, len(l) - 1))
+            if skip_at and len(l) >= 2:
+                done = 0
+                while done < steps:
+                    ncall += 1
+                    if ncall in skip_at:
+                        break
+                    done += 1
+                else:
+                    if done < max(0, len(l) - 1) and done == lim:
+                        pass          # the allowance ended the rounds: no further callback
+                    elif done == len(l) - 1:
+                        pass          # nothing left to match: no further callback
+                steps = done
             total += steps
             unique += steps > 0
             exp_lists.append(([' + '.join(l[:steps + 1])] + l[steps + 1:]) if steps else l)
         want_src = '(' + ', '.join('[' + ', '.join(l) + ']' for l in exp_lists) + ',)'
         d = cmp_ast(root.a, ast.parse(want_src), positions=False) or reparse_diffs(root)
         if d:
-            ctx.violation('sub-struct|loop', 'sub(loop=N) result differs from N successive substitutions per location', {'src': src, 'loop': loop, 'back': back, 'after': root.src, 'expected': want_src, 'diffs': d})
+            ctx.violation('sub-struct|loop', 'sub(loop=N) result differs from N successive substitutions per location', {'src': src, 'loop': loop, 'back': back, 'callback_declines_calls': sorted(skip_at), 'after': root.src, 'expected': want_src, 'diffs': d})
         elif (n_unique, n_total) != (unique, total):
-            ctx.violation('sub-count|loop', 'sub(loop=N) counts differ from the substitutions performed', {'src': src, 'loop': loop, 'reported': [n_unique, n_total], 'expected': [unique, total]})
+            ctx.violation('sub-count|loop', 'sub(loop=N) counts differ from the substitutions performed', {'src': src, 'loop': loop, 'callback_declines_calls': sorted(skip_at), 'reported': [n_unique, n_total], 'expected': [unique, total]})
 
 
 # ---- correspondence with models/Subst.v -----------------------------------------------------------------------------
